@@ -30,7 +30,7 @@ vlib.standard_check({
     "signature": signature,
     "eval_key": "ops",
     "nontrivial": lambda t: t.get("alloc_renamed", 0) + t.get("vhdl_assignments", 0) + t.get("vhdl_instances", 0) + t.get("comment_formatter_calls", 0)
-                            + t.get("exported_comment_lines_checked", 0),
+                            + t.get("exported_comment_lines_checked", 0) + sum(t.get("hist", {}).get("circuit_names_traced", {}).values()),
     "rule": "allocator: request sequences (19 allocation kinds, scope trees of 1..6 scopes, desired names from 2..6 base names per case in "
             "lower/UPPER/MiXed case, `_2`-style look-alikes, every VHDL-2008 reserved word x 3 letter cases x 19 kinds) through the real NamespaceScope; "
             "exports: generated designs (pins, arithmetic/logic/compare/mux/slice/concat, registers with sync/async/no reset, 1..2 clocks, named signals "
@@ -39,7 +39,12 @@ vlib.standard_check({
             "resets/clocks (overrideRstWith/overrideClkWith) computed through multiplexers over signals declared first and assigned later; multi-line "
             "comments (1..5 lines: empty, indented with blanks/tabs, containing --, quotes, semicolons, VHDL statements, 300..700 characters, CR LF) on "
             "the top entity, sub-entities, areas and nodes of about half of the designs, every comment line carrying a marker; the four comment "
-            "formatters called directly on such comments; every emitted file is tokenised, parsed and checked. "
+            "formatters called directly on such comments; every emitted file is tokenised, parsed and checked. Non-vacuity of the name quantifier: "
+            "the names carried by the objects of the circuit that is exported (read back after postprocess: pins, entities, instance names, clock and "
+            "reset pins, named signals, areas; each must have been requested by the generator) must each reappear, mangled as the allocator model "
+            "prescribes, as a declared identifier at the matching kind of position (name-lost otherwise); the scratch directory must contain exactly "
+            "design.vhd (searched recursively); one design in three is exported a second time one-file-per-entity and must yield exactly one file "
+            "per entity/package holding that unit. "
             "ops = allocation requests + identifiers checked in emitted text + formatter calls + marked comment lines; non-trivial = requests whose name "
             "had to be changed + assignments and port-map instances whose widths/names were checked + formatter calls + exported comment lines checked",
     "trusted_base": ["Lean 4.33 kernel", "axioms: propext, Classical.choice, Quot.sound only (audited per theorem)",
